@@ -25,7 +25,17 @@ class Rig:
         src = sc["src"]
         self.t0 = sc.get("t0", 0)
         self.units = src.get("units", "")
-        info = Info(time=dt(self.t0), grid=NoGrid(), units=self.units)
+        # gridded payloads: every publication is base_field + value; all adapters are affine in the series, so the
+        # expected array is base_field * (A(ones) - A(zeros)) + A(values) with three model instances in lockstep
+        self.grid_spec = src.get("grid")
+        if self.grid_spec:
+            from .grids import make_grid, MGrid
+            self.grid = make_grid(self.grid_spec)
+            mg = MGrid(self.grid_spec)
+            self.base = mg.field([0.25, 1.0, 10.0, 100.0][: mg.dim + 1])
+        else:
+            self.grid, self.base = NoGrid(), None
+        info = Info(time=dt(self.t0), grid=self.grid, units=self.units)
         self.out = Output(name="src", info=info, static=bool(src.get("static")))
         if src.get("mem_limit") is not None:
             self.out.memory_limit = src["mem_limit"]
@@ -35,6 +45,8 @@ class Rig:
         self.adapters = []
         self.models = []
         self.pubs = []            # model side: [(tick, value in source units)]
+        self.pubs1, self.pubs0 = [], []      # the same series with all values 1 / 0 (gridded payloads)
+        self.models1, self.models0 = [], []
         for ci, c in enumerate(sc["consumers"]):
             cur = self.out
             ads = []
@@ -52,7 +64,8 @@ class Rig:
                 self.labels[id(ad)] = f"c{ci}.a{pi}"
                 ads.append(ad)
                 cur = cur >> ad
-            inp = Input(name=f"c{ci}", info=Info(time=dt(self.t0), grid=NoGrid(), units=c.get("units")),
+            inp = Input(name=f"c{ci}", info=Info(time=dt(self.t0), grid=None if self.grid_spec else NoGrid(),
+                                                 units=c.get("units")),
                         static=bool(c.get("static")))
             cur >> inp
             self.labels[id(inp)] = f"c{ci}"
@@ -61,6 +74,11 @@ class Rig:
             lm = LinkModel(c["chain"], self.t0, source_pubs=lambda upto: self.pubs,
                            now_newest=lambda: self.pubs[-1][0] if self.pubs else None)
             self.models.append(lm)
+            if self.grid_spec:
+                self.models1.append(LinkModel(c["chain"], self.t0, source_pubs=lambda upto: self.pubs1,
+                                              now_newest=lambda: self.pubs1[-1][0] if self.pubs1 else None))
+                self.models0.append(LinkModel(c["chain"], self.t0, source_pubs=lambda upto: self.pubs0,
+                                              now_newest=lambda: self.pubs0[-1][0] if self.pubs0 else None))
         self.rec = ins.Recorder(labels=self.labels, tick_of=tick)
 
     def connect(self):
@@ -126,7 +144,7 @@ def run_e3(sc, scratch=None):
             if kind == "PUSH":
                 _, t, val = ev[:3]
                 mode = ev[3] if len(ev) > 3 else None
-                payload = float(val)
+                payload = float(val) if rig.base is None else rig.base + float(val)
                 exc = None
                 try:
                     rig.out.push_data(payload, dt(t))
@@ -136,13 +154,16 @@ def run_e3(sc, scratch=None):
                     v("push-raises", type(exc).__name__, f"event {ei}: push at {t} raised {type(exc).__name__}: {exc}")
                     break
                 rig.pubs.append((t, float(val)))
-                for ci, lm in enumerate(rig.models):
-                    for pos, a in enumerate(sc["consumers"][ci]["chain"]):
-                        if a["kind"] in BUFFERING:
-                            try:
-                                lm._fill(pos, t)
-                            except (Unknown, ModelRefuse):
-                                pass
+                rig.pubs1.append((t, 1.0))
+                rig.pubs0.append((t, 0.0))
+                for group in (rig.models, rig.models1, rig.models0):
+                    for ci, lm in enumerate(group):
+                        for pos, a in enumerate(sc["consumers"][ci]["chain"]):
+                            if a["kind"] in BUFFERING:
+                                try:
+                                    lm._fill(pos, t)
+                                except (Unknown, ModelRefuse):
+                                    pass
                 log.append(("PUSH", t))
             elif kind == "PULL":
                 _, ci, t = ev
@@ -155,16 +176,30 @@ def run_e3(sc, scratch=None):
                     exp = ("refuse", e.kind)
                 except Unknown:
                     exp = ("unknown", None)
+                w1 = w0 = None
+                if rig.base is not None:
+                    try:
+                        a1 = rig.models1[ci].pull(t)
+                        a0 = rig.models0[ci].pull(t)
+                        if len(a1) == 1 and len(a0) == 1:
+                            w1, w0 = a1[0], a0[0]
+                    except (ModelRefuse, Unknown):
+                        pass
                 try:
                     d = rig.inputs[ci].pull_data(dt(t))
-                    act = ("val", mag(d), str(d.units))
+                    if rig.base is None:
+                        act = ("val", mag(d), str(d.units))
+                    else:
+                        arr = np.asarray(d.magnitude)
+                        act = ("val", arr, str(d.units))
                 except FinamTimeError as e:
                     act = ("FinamTimeError", str(e)[:200])
                 except FinamNoDataError as e:
                     act = ("FinamNoDataError", str(e)[:200])
                 except Exception as e:
                     act = (type(e).__name__, str(e)[:300])
-                log.append(("PULL", ci, t, act[0], act[1] if act[0] == "val" else None))
+                log.append(("PULL", ci, t, act[0], (act[1] if rig.base is None else float(np.asarray(act[1]).reshape(-1)[0]))
+                            if act[0] == "val" else None))
                 cu = sc["consumers"][ci].get("units")
                 if exp[0] == "val":
                     f = rig.chain_factor(ci)
@@ -174,7 +209,23 @@ def run_e3(sc, scratch=None):
                         probe("tie_midpoint")
                     if act[0] == "val":
                         pulled_once[ci] = True
-                        if not isinstance(act[1], float) or not any_close(act[1], want):
+                        if rig.base is not None:
+                            arr = act[1]
+                            if arr.shape != (1,) + rig.base.shape:
+                                v("link-shape", "shape", f"event {ei}: delivered shape {arr.shape}, expected {(1,) + rig.base.shape}",
+                                  consumer=ci)
+                            elif w1 is None or len(want) != 1:
+                                probe("grid_value_unspecified")
+                            else:
+                                fac = convert(1.0, ou, cu) if cu else 1.0
+                                exp_arr = (rig.base * (w1 - w0) * f) * fac + want[0]
+                                # (offset units are not used with gridded payloads)
+                                if not np.allclose(arr[0], exp_arr, rtol=1e-9, atol=1e-9):
+                                    v("link-value", "grid-value",
+                                      f"event {ei}: consumer {ci} pull at {t}: gridded result differs from the definition "
+                                      f"(first element {arr[0].reshape(-1)[0]} vs {exp_arr.reshape(-1)[0]})", consumer=ci)
+                                probe("grid_value_compared")
+                        elif not isinstance(act[1], float) or not any_close(act[1], want):
                             v("link-value", "value", f"event {ei}: consumer {ci} pull at {t}: got {act[1]}, ideal link gives {want}",
                               consumer=ci)
                         want_u = cu or ou
